@@ -537,6 +537,7 @@ theorem resolver_songs (m bk : Nat) (hm : 0 < m) (hm24 : m < 16777216) (hb : bk 
   obtain ⟨hall, hnd⟩ := songs_in_order m bk hm hm24 hb files songs l bank hparse hstart hrun hseq
   refine mapM'_enum (Paired l) _ l.songs (ordered songs) l.songs 0 hall (fun i => by simp) ?_
   intro i s sd hi ⟨p1, p2, p3, p4, p5⟩
-  exact songOk_of l bank hseq hnd hbl i sd hi s p1 p2 p3 p4 p5
+  obtain ⟨o, es, h, _⟩ := songOk_of l bank hseq hnd hbl i sd hi s p1 p2 p3 p4 p5
+  exact ⟨_, h⟩
 
 end Ctrmml.Linker
